@@ -198,9 +198,10 @@ theorem key_connect (s : S) (ok : Bool) :
   · rename_i h; simp
 
 /-- the CONNACK handler on MQTT 5: either the reason code constructor raises (state untouched), or the flag
-is disarmed -/
+is disarmed exactly when the result is 0 (a refused CONNACK leaves it as it was) -/
 theorem handleConnack_five (s : S) (sp : Bool) (rc : Nat) (ok : Bool) (h5 : s.proto = 5) :
-    (∃ n, s.handleConnack sp rc ok = (s, .raised n)) ∨ key (s.handleConnack sp rc ok).1 = ⟨s.cfg, 5, false⟩ := by
+    (∃ n, s.handleConnack sp rc ok = (s, .raised n)) ∨
+      key (s.handleConnack sp rc ok).1 = ⟨s.cfg, 5, if rc = 0 then false else s.firstConnect⟩ := by
   unfold handleConnack
   have h4 : ¬ (s.proto = 4 ∧ rc = 1) := by omega
   simp only [h4, if_false]
@@ -215,15 +216,27 @@ theorem handleConnack_five (s : S) (sp : Bool) (rc : Nat) (ok : Bool) (h5 : s.pr
       · intro hr; cases hr
     · intro hr; cases hr
   · right
-    frame_tac [h5]
+    by_cases h0 : rc = 0
+    · subst h0; frame_tac [h5]
+    · simp only [h0, if_false]
+      split <;> simp only [key_emit] <;> simp only [key, h5]
+
+/-- a CONNACK with a non-zero result never changes what the clean flag depends on -/
+theorem handleConnack_five_refused (s : S) (sp : Bool) (rc : Nat) (ok : Bool) (h5 : s.proto = 5) (h0 : rc ≠ 0) :
+    key (s.handleConnack sp rc ok).1 = key s := by
+  rcases handleConnack_five s sp rc ok h5 with ⟨n, hn⟩ | h
+  · rw [hn]
+  · rw [h]; simp only [h0, if_false, key, h5]
 
 theorem packetHandle_five (s : S) (p : RxPkt) (ok : Bool) (h5 : s.proto = 5) :
     key (s.packetHandle p ok).1 = key s ∨ key (s.packetHandle p ok).1 = ⟨s.cfg, 5, false⟩ := by
   cases p
   case connack sp rc =>
-    rcases handleConnack_five s sp rc ok h5 with ⟨n, hn⟩ | h
-    · left; simp [packetHandle, hn]
-    · right; simpa [packetHandle] using h
+    by_cases h0 : rc = 0
+    · rcases handleConnack_five s sp rc ok h5 with ⟨n, hn⟩ | h
+      · left; simp [packetHandle, hn]
+      · right; simpa [packetHandle, h0] using h
+    · left; simpa [packetHandle] using handleConnack_five_refused s sp rc ok h5 h0
   all_goals (left; unfold packetHandle; frame_tac)
 
 /-- everything `loop_read()` does after the packet handler returned keeps the three components -/
@@ -246,7 +259,22 @@ theorem loopRead_five (s : S) (item : RxItem) (ok : Bool) (h5 : s.proto = 5) :
         · right; rw [← h]; frame_tac
     all_goals (left; frame_tac)
 
-theorem loopRead_connack_five (s : S) (sp : Bool) (rc : Nat) (ok : Bool) (h5 : s.proto = 5) (hs : s.sock.isSome) :
+/-- whatever `loop_read()` does after the packet handler returned keeps the three components -/
+theorem key_loopRead_pkt (s : S) (p : RxPkt) (ok : Bool) :
+    key (s.loopRead (.pkt p) ok).1 = key s ∨ key (s.loopRead (.pkt p) ok).1 = key (s.packetHandle p ok).1 := by
+  unfold loopRead
+  split
+  · left; rfl
+  · right
+    rcases hph : s.packetHandle p ok with ⟨s1, r⟩
+    simp only [hph]
+    cases r
+    case raised n => rfl
+    case rc rc => frame_tac
+
+/-- a CONNACK with result 0 read on a live socket: the handler raises or the flag is disarmed -/
+theorem loopRead_connack_five (s : S) (sp : Bool) (rc : Nat) (ok : Bool) (h5 : s.proto = 5) (hs : s.sock.isSome)
+    (h0 : rc = 0) :
     (∃ n, (s.loopRead (.pkt (.connack sp rc)) ok).2 = .raised n) ∨
       key (s.loopRead (.pkt (.connack sp rc)) ok).1 = ⟨s.cfg, 5, false⟩ := by
   unfold loopRead
@@ -256,12 +284,20 @@ theorem loopRead_connack_five (s : S) (sp : Bool) (rc : Nat) (ok : Bool) (h5 : s
     · left; exact ⟨n, by simp [packetHandle, hn]⟩
     · rcases hph : s.handleConnack sp rc ok with ⟨s1, r⟩
       rw [hph] at h
+      simp only [h0, if_true] at h
       cases r
       case raised n => left; exact ⟨n, by simp [packetHandle, hph]⟩
       case rc rc =>
         right
         simp only [packetHandle, hph]
         rw [← h]; frame_tac
+
+/-- a CONNACK with a non-zero result (raising or not) leaves the three components as they were -/
+theorem loopRead_connack_five_refused (s : S) (sp : Bool) (rc : Nat) (ok : Bool) (h5 : s.proto = 5) (h0 : rc ≠ 0) :
+    key (s.loopRead (.pkt (.connack sp rc)) ok).1 = key s := by
+  rcases key_loopRead_pkt s (.connack sp rc) ok with h | h
+  · exact h
+  · rw [h]; simpa [packetHandle] using handleConnack_five_refused s sp rc ok h5 h0
 
 /-- one step on MQTT 5: only `connect()` can arm the flag -/
 theorem step_five (s : S) (op : Op) (h5 : s.proto = 5) (hop : ∀ b, op ≠ .connect b) :
